@@ -11,5 +11,8 @@ CLAIMS = {
         text="Unbounded proof that the people moved equal fraction x stock / max(1, sum of fractions) and that a source compartment emits exactly the cached amount; the dt-grid (FPSTD) and unit-conversion clauses are added as their contracts are built.",
         note=_REAL),
 }
+CLAIMS["C04"] = dict(
+    text="Unbounded proof that a plain junction (outside and inside a duration group, per elapsed-time row) assigns inflow * p_i / sum(p) to each outflow, passes on exactly what it receives whenever sum(p) > 0 and never produces a negative or undefined flow under the property's domain restriction; residual junctions, the initial flush and the topological order are added as their contracts are built.",
+    note=_REAL)
 NOT_APPLICABLE = {}
 NOTES = "Checks exit 0 (all obligations discharged), 1 (a registered obligation refuted: VIOLATION line, replay on real objects), 2 (undecided: unknown/unsupported, never reported as a violation), 3 (checker error: vacuity, zero obligations, internal error)."
